@@ -270,37 +270,66 @@ pub fn run_backend(s: &str, b: Backend, bound: u64, cap: usize) -> Run {
     Run { parsed, ops: ops.get(), breaches: br }
 }
 
+/// Generous event cap used by every monitor that is not itself about termination: a parse that
+/// delivers more events than this is cut off (`capped`) so that a non-terminating parser cannot
+/// take the worker down; reporting it is C01's business.
+pub fn safety_cap(s: &str) -> usize {
+    64 * (s.len() + 1) + 1024
+}
+
 /// Plain parse with the real StrInput, no instrumentation.
 pub fn parse_str(s: &str) -> Parsed {
+    crate::util::set_current_case(s);
     let mut p = Parser::new_from_str(s);
-    pull_all(&mut p, usize::MAX)
+    pull_all(&mut p, safety_cap(s))
 }
 
 pub fn parse_iter(s: &str) -> Parsed {
     let mut p = Parser::new_from_iter(s.chars());
-    pull_all(&mut p, usize::MAX)
+    pull_all(&mut p, safety_cap(s))
 }
 
 pub fn parse_str_keep(s: &str, keep_tags: bool) -> Parsed {
     let mut p = Parser::new_from_str(s).keep_tags(keep_tags);
-    pull_all(&mut p, usize::MAX)
+    pull_all(&mut p, safety_cap(s))
+}
+
+/// Does pulling events from `s` end (StreamEnd or error) within the safety cap? Loader-level
+/// monitors ask this before handing a text to an API that has no cap of its own.
+pub fn terminates(s: &str) -> bool {
+    crate::util::set_current_case(s);
+    let r = crate::util::catch(|| {
+        let mut p = Parser::new_from_str(s);
+        !pull_all(&mut p, safety_cap(s)).capped
+    });
+    r.unwrap_or(false)
 }
 
 /// Receiver that records events (push interface).
 #[derive(Default)]
 pub struct Recorder {
     pub events: Vec<(SEv, SSpan)>,
+    /// 0 = the default safety cap
+    pub cap: usize,
 }
 
 impl<'i> SpannedEventReceiver<'i> for Recorder {
     fn on_event(&mut self, ev: Event<'i>, span: Span) {
         self.events.push((sev(&ev), sspan(&span)));
+        let cap = if self.cap == 0 { 1 << 22 } else { self.cap };
+        if self.events.len() > cap {
+            panic!("{}", crate::inputs::WORK_BOUND_MSG);
+        }
     }
 }
 
 /// Push-interface parse (`load(multi=true)`).
 pub fn push_all<'a, T: Input>(p: &mut Parser<'a, T>) -> Parsed {
-    let mut r = Recorder::default();
+    push_all_capped(p, 0)
+}
+
+pub fn push_all_capped<'a, T: Input>(p: &mut Parser<'a, T>, cap: usize) -> Parsed {
+    let mut r = Recorder { events: vec![], cap };
     let res = p.load(&mut r, true);
     Parsed { events: r.events, error: res.err().map(|e| serr(&e)), capped: false }
 }
